@@ -221,6 +221,7 @@ package server
 //@ unit modifyEntry
 //@ requires r != nil ==> holdersNonNil(r)
 //@ ensures[nil-op] op == nil ==> result1 != nil && result0 == nil
+//@ ensures[holders] r != nil ==> holdersNonNil(r)
 //@ ensures[one-of] (result0 == nil) != (result1 == nil)
 //@ ensures[unauthorised-no-rib] op != nil && !authorised(op.ElectionId, election) ==> ribState == old(ribState)
 //@ ensures[unauthorised-answer] op != nil && !authorised(op.ElectionId, election) ==> result1 != nil || failedFor(result0, op.Id)
@@ -257,3 +258,30 @@ package server
 //@ loop 1 invariant holdersNonNil(s.masterRIB) && s.masterRIB != nil && supportedSession(cs) && elec != nil
 //@ assigns sent(resCh), sent(errCh), ribState
 //@ props C06 C04 C09 C12:safety
+
+//@ fnfield unixTS
+//@ why the clock returns an arbitrary int64
+
+// flushAuthorised: the election gate of spec 4.3.1 as a predicate over the request and the server's current election ID.
+//@ pred flushAuthorised(req *spb.FlushRequest, cur *spb.Uint128) = req.GetOverride() != nil
+//@   || (req.GetId() == nil && cur == nil)
+//@   || (req.GetId() != nil && cur != nil && u128(req.GetId().High, req.GetId().Low) != 0
+//@       && u128(req.GetId().High, req.GetId().Low) >= u128(cur.High, cur.Low))
+
+//@ unit Server.Flush
+//@ requires s != nil && s.masterRIB != nil && holdersNonNil(s.masterRIB) && unixTS != nil
+//@ requires[wire-valid] req != nil ==> oneofOK(req.Election) && oneofOK(req.NetworkInstance)
+//@ ensures[nil-req] req == nil ==> result1 != nil && ribState == old(ribState)
+//@ ensures[no-ni] req != nil && req.GetNetworkInstance() == nil ==> result1 != nil && errCode(result1) == codes.InvalidArgument && ribState == old(ribState)
+//@ ensures[election-gated] req != nil && req.GetNetworkInstance() != nil && !flushAuthorised(req, old(s.curElecID)) ==> result1 != nil && result0 == nil && ribState == old(ribState)
+//@   && (errCode(result1) == codes.FailedPrecondition || errCode(result1) == codes.InvalidArgument)
+//@ ensures[unknown-ni] req != nil && istype(req.NetworkInstance, *spb.FlushRequest_Name) && !(req.GetName() in old(dom(s.masterRIB.niRIB)))
+//@   ==> result1 != nil && ribState == old(ribState) && (!flushAuthorised(req, old(s.curElecID)) || (errCode(result1) == codes.InvalidArgument
+//@   && (flushReason(result1) == spb.FlushResponseError_INVALID_NETWORK_INSTANCE || flushReason(result1) == spb.FlushResponseError_NO_SUCH_NETWORK_INSTANCE)))
+//@ ensures[ok] req != nil && flushAuthorised(req, old(s.curElecID)) && (istype(req.NetworkInstance, *spb.FlushRequest_All)
+//@   || (istype(req.NetworkInstance, *spb.FlushRequest_Name) && req.GetName() in old(dom(s.masterRIB.niRIB))))
+//@   ==> result1 == nil && result0 != nil && result0.Result == spb.FlushResponse_OK
+//@ ensures[one-of] (result0 == nil) != (result1 == nil)
+//@ ensures[election-untouched] s.curElecID == old(s.curElecID) && s.curMaster == old(s.curMaster)
+//@ assigns ribState
+//@ props C08 C12:safety
